@@ -67,3 +67,36 @@ fn c02_short_stack_copy_does_not_panic() {
         assert!(matches!(r, Ok(false)), "stack_has_pointer_to_mapping panicked on a {len}-byte stack copy");
     }
 }
+
+/// C12: a negative integer of small magnitude (-5) is "an integer of magnitude at most 4096" and must survive.
+#[test]
+fn c12_small_negative_integer_survives() {
+    let d = bare_dumper(vec![mapping(0x7000_0000, 0x1000, MMPermissions::READ | MMPermissions::EXECUTE)]);
+    let mut stack = Vec::new();
+    for w in [(-5isize) as usize, (-4096isize) as usize, 4096usize, (-4097isize) as usize, 4097usize] {
+        stack.extend_from_slice(&w.to_ne_bytes());
+    }
+    d.sanitize_stack_copy(&mut stack, 0x1234_0000, 0).unwrap();
+    let words: Vec<usize> = stack.chunks_exact(8).map(|c| usize::from_ne_bytes(c.try_into().unwrap())).collect();
+    let defaced = 0x0defaced0defacedusize;
+    assert_eq!(
+        words,
+        vec![(-5isize) as usize, (-4096isize) as usize, 4096, defaced, defaced],
+        "small negative integers must be kept, |x| > 4096 defaced"
+    );
+    std::mem::forget(d);
+}
+
+/// C12 / C02: a region shorter than the (aligned) stack-pointer offset: everything is below the stack
+/// pointer, so the whole region is zeroed — and nothing panics.
+#[test]
+fn c12_region_shorter_than_offset() {
+    let d = bare_dumper(vec![]);
+    for (len, off) in [(12usize, 10usize), (8, 9), (0, 1), (16, 40)] {
+        let mut stack = vec![0xAAu8; len];
+        let r = std::panic::catch_unwind(std::panic::AssertUnwindSafe(|| d.sanitize_stack_copy(&mut stack, 0x1234_0000, off).is_ok()));
+        assert!(matches!(r, Ok(true)), "sanitize_stack_copy(len={len}, sp_offset={off}) panicked or failed");
+        assert!(stack.iter().all(|&b| b == 0) && stack.len() == len);
+    }
+    std::mem::forget(d);
+}
